@@ -212,16 +212,28 @@ class Check(c11.Check):
             f, html = run_formatter(cfg, text, via)
         except Exception as e:
             return ['raise', exc_name(e)], False
-        elems = []
+        # the formatter object's bookkeeping (named by the property as its state); compared when it can be read —
+        # a rewrite that keeps the output but stores its state differently only loses this part of the comparison
+        try:
+            counters = [int(f.currentIndentLevel), int(f.inPreformatted), len(f._inTag)]
+        except Exception:
+            counters = 'na'
+        try:
+            elems = []
 
-        def walk(e):
-            elems.append([enc(e.tagName), enc(e._indent)])
-            for c in e.children:
-                walk(c)
-        if f.root is not None:
-            walk(f.root)
-        return (['ok', enc(html), [f.currentIndentLevel, f.inPreformatted, len(f._inTag)], elems],
-                f.root is not None and f.root.tagName == WRAPPER)
+            def walk(e):
+                elems.append([enc(e.tagName), enc(e._indent)])
+                for c in e.children:
+                    walk(c)
+            if f.root is not None:
+                walk(f.root)
+        except Exception:
+            elems = 'na'
+        try:
+            wrapped = f.root is not None and f.root.tagName == WRAPPER
+        except Exception:
+            wrapped = True
+        return ['ok', enc(html), counters, elems], wrapped
 
     def impl(self, d):
         rs = self.runs(d)
@@ -240,6 +252,28 @@ class Check(c11.Check):
                 g.append(o)
             groups.append(g)
         return sx(*groups)
+
+    def compare(self, model_out, impl_out, d):
+        if impl_out.startswith('(skip'):
+            return None
+        if model_out == impl_out:
+            return None
+        if ' na' in impl_out:
+            try:
+                from ..core import parse_sx
+                m, i = parse_sx(model_out), parse_sx(impl_out)
+                if len(m) == len(i) and all(len(a) == len(b) for a, b in zip(m, i)):
+                    for ga, gb in zip(m, i):
+                        for ra, rb in zip(ga, gb):
+                            if isinstance(ra, list) and isinstance(rb, list) and len(ra) == len(rb) == 4:
+                                for k in (2, 3):
+                                    if rb[k] == 'na':
+                                        ra[k] = 'na'
+                    if m == i:
+                        return None
+            except Exception:
+                pass
+        return PropCheck.compare(self, model_out, impl_out, d)
 
     # ---- the property itself -----------------------------------------------------------------
     def oracle(self, d):
